@@ -10,7 +10,7 @@ import (
 )
 
 func init() {
-	Explanations["C05"] = "Decides structural necessary conditions of 'the pool is a valid continuation of the tip' in chain.Manager and the miner: (R1) every exported Manager method that reads the pool's lists, index map or weight — directly, in a closure, or through an unexported helper that does — calls the revalidation step after locking and before the first such read; (R2) every success return of the tip walker passes the store that discards the pool's mid-state; (R3) in the apply step Store.ApplyBlock(cs, cau) is followed on every path by the pool's apply update with the same two values, and likewise for revert; (R4) every registration of a transaction in the pool's index map is dominated by the success edge of consensus.Validate(V2)Transaction against the pool's mid-state for that transaction (directly, or through a staging slice filled only on that edge) and each such validation success is followed by the matching mid-state Apply; (R5) in MineBlock every append to the block's transaction lists lies on the passing side of the block-weight test and the loop leaves (break/return) on the failing side, so a prefix is taken; (R6) the proof updater used when blocks are applied/reverted under the pool excludes the ephemeral sentinel before range-checking a leaf index, so a pooled child of a pooled parent is not dropped by an unrelated block; (R7) every pointer the proof updater passes to its per-element closure points into the transaction it was given (through the parameter and index expressions) or through a pointer-typed value — never at a by-value loop copy, whose update would be discarded. (R8) in the pool rebuild every `weight +=` is dominated by a reset of the weight to zero with no other adjustment between them, so the figure the eviction test reads is the weight of the transactions actually pooled. NOT decided: that moved proofs verify, that a mined block is accepted, retention until confirmation."
+	Explanations["C05"] = "Decides structural necessary conditions of 'the pool is a valid continuation of the tip' in chain.Manager and the miner: (R1) every exported Manager method that reads the pool's lists, index map or weight — directly, in a closure, or through an unexported helper that does — calls the revalidation step after locking and before the first such read; (R2) every success return of the tip walker passes the store that discards the pool's mid-state; (R3) in the apply step Store.ApplyBlock(cs, cau) is followed on every path by the pool's apply update with the same two values, and likewise for revert; (R4) every registration of a transaction in the pool's index map is dominated by the success edge of consensus.Validate(V2)Transaction against the pool's mid-state for that transaction (directly, or through a staging slice filled only on that edge) and each such validation success is followed by the matching mid-state Apply; (R5) in MineBlock every append to the block's transaction lists lies on the passing side of the block-weight test and the loop leaves (break/return) on the failing side, so a prefix is taken; (R6) the proof updater used when blocks are applied/reverted under the pool excludes the ephemeral sentinel before range-checking a leaf index, so a pooled child of a pooled parent is not dropped by an unrelated block; (R7) every pointer the proof updater passes to its per-element closure points into the transaction it was given (through the parameter and index expressions) or through a pointer-typed value — never at a by-value loop copy, whose update would be discarded. (R8) in the pool rebuild every `weight +=` is dominated by a reset of the weight to zero with no other adjustment between them, so the figure the eviction test reads is the weight of the transactions actually pooled. (R9) the inverse-effect table of C02.R1: the element store the v1 pool is validated against is restored exactly by a revert; (R10) every contribution to the pool's recorded weight (directly or through a local accumulator) is paired, within its loop iteration, with the store of that transaction into a pool list or the local list that becomes one. NOT decided: that moved proofs verify, that a mined block is accepted, retention until confirmation."
 
 	register(&Rule{ID: "C05.R1", Prop: "C05", Floor: 10, Doc: "revalidate-before-read in every exported pool reader", Run: c05r1})
 	register(&Rule{ID: "C05.R2", Prop: "C05", Floor: 1, Doc: "tip change discards the pool mid-state", Run: c05r2})
@@ -20,6 +20,7 @@ func init() {
 	register(&Rule{ID: "C05.R7", Prop: "C05", Floor: 4, Doc: "the proof updater hands out pointers into the transaction itself, never into a loop copy", Run: c05r7})
 	register(&Rule{ID: "C05.R8", Prop: "C05", Floor: 2, Doc: "rebuilding the pool restarts its weight from zero before re-adding transaction weights", Run: c05r8})
 	register(&Rule{ID: "C05.R9", Prop: "C05", Floor: 16, Doc: "the element store the v1 pool is validated against is restored exactly by a revert and never holds an output created and spent inside one block (same table as C02.R1)", Run: c02r1})
+	register(&Rule{ID: "C05.R10", Prop: "C05", Floor: 2, Doc: "the pool's weight grows by the weight of exactly the transactions stored into the pool lists (directly or through an accumulator)", Run: c05r10})
 	register(&Rule{ID: "C05.R6", Prop: "C05", Floor: 1, Doc: "moving pooled proofs does not declare ephemeral inputs invalid (same check as C13.R6)", Run: ephemeralSkipped})
 }
 
@@ -471,6 +472,50 @@ func c05r7(c *Ctx) {
 	if n == 0 {
 		ir.Fail("no &element call of the per-element updater found")
 	}
+	// the same slip anywhere in the pool's update code: `for _, v := range list { h(&v.f) }` hands out the address of
+	// a field of the loop's copy — what the callee writes through it is discarded with the copy (through a slice
+	// element, `&txn.Inputs[i].Parent`, the address points into the shared backing array and is fine)
+	for _, f := range c.P.PkgFuncs("chain") { // (as written: an expanded closure call would hide the operand)
+		rangeVals := map[types.Object]bool{}
+		ir.Walk(f.Body, false, func(x ast.Node) {
+			if rs, ok := x.(*ast.RangeStmt); ok && rs.Value != nil && rs.Tok == token.DEFINE {
+				if o := f.ObjOf(rs.Value); o != nil && !isPointer(o.Type()) {
+					rangeVals[o] = true
+				}
+			}
+		})
+		if len(rangeVals) == 0 {
+			continue
+		}
+		for _, call := range f.Calls(false) {
+			for _, a := range call.Expr.Args {
+				u, ok := ast.Unparen(a).(*ast.UnaryExpr)
+				if !ok || u.Op != token.AND {
+					continue
+				}
+				// a path of plain field selections down to the loop variable
+				e := ast.Unparen(u.X)
+				fields := 0
+				for {
+					sel, ok := e.(*ast.SelectorExpr)
+					if !ok || f.Info().Selections[sel] == nil || isPointer(f.TypeOf(sel.X)) {
+						break
+					}
+					e = ast.Unparen(sel.X)
+					fields++
+				}
+				root := f.ObjOf(e)
+				if _, isID := e.(*ast.Ident); !isID || fields == 0 || root == nil || !rangeVals[root] {
+					continue
+				}
+				// does the callee store through that parameter? (local closures and repository functions are read;
+				// anything else that takes a pointer to an element is assumed to)
+				c.VisitGraph(f)
+				ob := c.Ob(f, "pointer-into-loop-copy", call.Pos())
+				ob.Bad(nil, "%s is handed &%s at %s, the address of a field of the loop variable %q, which is a copy of the list element: whatever is written through it (a moved proof, a replaced ephemeral element) is lost, and the pooled transaction keeps stale data and is dropped at the next revalidation", callName(call.Fn), ir.ExprString(u.X), c.P.Pos(call.Pos()), root.Name())
+			}
+		}
+	}
 }
 
 func isPointer(t types.Type) bool {
@@ -613,4 +658,215 @@ func countThenSlice(f *ir.Func, g *cfgx.Graph, test, head *cfgx.Node, rs *ast.Ra
 		}
 	}
 	return ok && uses > 0
+}
+
+// c05r10: the pool's recorded weight grows by the weight of exactly the transactions that enter the pool lists. The
+// weight drives eviction; counting a transaction that was skipped (already pooled, duplicate) makes a nearly
+// empty pool look full and evicts accepted transactions. Every contribution `weight += W(x)` — directly, or through
+// a local accumulator that is added afterwards — sits in a loop iteration that also stores x into a pool list (or
+// into the local list that becomes one), and neither happens without the other within the iteration.
+func c05r10(c *Ctx) {
+	pf := getPoolFields(c.P)
+	n := 0
+	isWeightCall := func(f *ir.Func, e ast.Expr) ast.Expr {
+		call, ok := ast.Unparen(e).(*ast.CallExpr)
+		if !ok || len(call.Args) != 1 {
+			return nil
+		}
+		fn := f.Callee(call)
+		if fn == nil || (fn.Name() != "TransactionWeight" && fn.Name() != "V2TransactionWeight") {
+			return nil
+		}
+		return call.Args[0]
+	}
+	for _, f := range getChainRoles(c.P).methodsV {
+		g := f.Graph()
+		type site struct {
+			n *cfgx.Node
+			x ast.Expr
+		}
+		var sites []site
+		contributions := func(target func(ast.Expr) bool) []site {
+			var out []site
+			for _, nd := range g.Nodes {
+				if nd.AST == nil {
+					continue
+				}
+				for _, w := range f.WritesIn(nd.AST, false) {
+					if !target(w.LHS) || w.RHS == nil {
+						continue
+					}
+					var operand ast.Expr
+					switch {
+					case w.Tok == token.ADD_ASSIGN:
+						operand = w.RHS
+					case w.Tok == token.ASSIGN:
+						if be, ok := ast.Unparen(w.RHS).(*ast.BinaryExpr); ok && be.Op == token.ADD {
+							if target(be.X) {
+								operand = be.Y
+							} else if target(be.Y) {
+								operand = be.X
+							}
+						}
+					}
+					if operand != nil {
+						out = append(out, site{nd, operand})
+					}
+				}
+			}
+			return out
+		}
+		for _, s := range contributions(func(e ast.Expr) bool { return f.FieldOf(e) == pf.weight }) {
+			if x := isWeightCall(f, s.x); x != nil {
+				sites = append(sites, site{s.n, x})
+				continue
+			}
+			// a local accumulator
+			if acc, ok := f.ObjOf(s.x).(*types.Var); ok && !acc.IsField() && acc.Parent() != acc.Pkg().Scope() {
+				for _, s2 := range contributions(func(e ast.Expr) bool { return f.ObjOf(e) == types.Object(acc) }) {
+					if x := isWeightCall(f, s2.x); x != nil {
+						sites = append(sites, site{s2.n, x})
+					}
+				}
+			}
+		}
+		if len(sites) == 0 {
+			continue
+		}
+		c.VisitGraph(f)
+		// lists that are (or become) pool lists
+		poolish := func(e ast.Expr) bool {
+			if fl := f.FieldOf(e); fl == pf.txns || fl == pf.v2txns {
+				return true
+			}
+			lo := f.ObjOf(e)
+			if lo == nil {
+				return false
+			}
+			if _, isSlice := lo.Type().Underlying().(*types.Slice); !isSlice {
+				return false
+			}
+			found := false
+			// stored as a pool list, or walked by a loop that stores its elements into one
+			for _, w := range f.WritesIn(f.Body, false) {
+				if fl := f.FieldOf(w.LHS); (fl == pf.txns || fl == pf.v2txns) && w.RHS != nil && f.ObjOf(w.RHS) == lo {
+					found = true
+				}
+			}
+			ir.Walk(f.Body, false, func(x ast.Node) {
+				rs, ok := x.(*ast.RangeStmt)
+				if !ok || f.ObjOf(rs.X) != lo {
+					return
+				}
+				for _, w := range f.WritesIn(rs.Body, false) {
+					root := w.LHS
+					if ix, ok := ast.Unparen(root).(*ast.IndexExpr); ok {
+						root = ix.X
+					}
+					if fl := f.FieldOf(root); fl == pf.txns || fl == pf.v2txns {
+						found = true
+					}
+				}
+			})
+			return found
+		}
+		for _, s := range sites {
+			n++
+			ob := c.Ob(f, "weight-counts-what-is-pooled", s.n.Pos())
+			head, _, body := enclosingRange(f, s.n)
+			if head == nil {
+				ob.Unknown("the weight contribution at %s is not inside a loop over transactions", c.P.Pos(s.n.Pos()))
+				continue
+			}
+			rs := head.AST.(*ast.RangeStmt)
+			// the stores of the same transaction into a pool(-to-be) list within this loop
+			var stores []*cfgx.Node
+			for _, nd := range g.Nodes {
+				if nd.AST == nil || !containsNode(rs.Body, nd.AST) {
+					continue
+				}
+				for _, w := range f.WritesIn(nd.AST, false) {
+					if w.RHS == nil {
+						continue
+					}
+					if ix, ok := ast.Unparen(w.LHS).(*ast.IndexExpr); ok && poolish(ix.X) && sameLvalue(f, w.RHS, s.x) {
+						stores = append(stores, nd)
+						continue
+					}
+					if ac, ok := ast.Unparen(w.RHS).(*ast.CallExpr); ok && len(ac.Args) == 2 && !ac.Ellipsis.IsValid() {
+						if id, ok := ac.Fun.(*ast.Ident); ok && id.Name == "append" && poolish(w.LHS) {
+							arg := ac.Args[1]
+							if sameLvalue(f, arg, s.x) {
+								stores = append(stores, nd)
+							} else if cl, ok := ast.Unparen(arg).(*ast.CompositeLit); ok {
+								for _, el := range cl.Elts {
+									if kv, ok := el.(*ast.KeyValueExpr); ok {
+										el = kv.Value
+									}
+									if sameLvalue(f, el, s.x) {
+										stores = append(stores, nd)
+									}
+								}
+							}
+						}
+					}
+				}
+			}
+			if len(stores) == 0 {
+				// the loop may walk a list of transactions that were all stored before (staged list): then the
+				// ranged list itself must be a pool(-to-be) list or its elements were appended to one in full
+				if poolish(rs.X) {
+					ob.OK("the loop walks a list that is stored as a pool list")
+					continue
+				}
+				ob.Bad(nil, "the weight of %s is added to the pool's weight at %s, but the loop does not store that transaction into a pool list: transactions that are skipped (already pooled, duplicates) are counted, the pool looks full and accepted transactions are evicted", ir.ExprString(s.x), c.P.Pos(s.n.Pos()))
+				continue
+			}
+			bad := ""
+			isStore := func(m *cfgx.Node) bool {
+				for _, st := range stores {
+					if st == m {
+						return true
+					}
+				}
+				return false
+			}
+			var after []*cfgx.Visit
+			for _, e := range s.n.Succs {
+				after = append(after, cfgx.StartAfter(e, 0))
+			}
+			storeBefore := false // is the contribution reached only through a store?
+			if _, skip := g.Reach([]*cfgx.Visit{cfgx.StartAfter(body, 0)}, isStore)[s.n]; !skip && !isStore(s.n) {
+				storeBefore = true
+			}
+			if !storeBefore && !isStore(s.n) {
+				if _, leak := g.Reach(after, isStore)[head]; leak {
+					bad = "the iteration can end after counting the weight without storing the transaction"
+				}
+			}
+			// and no store without the contribution
+			for _, st := range stores {
+				if st == s.n {
+					continue
+				}
+				var from []*cfgx.Visit
+				for _, e := range st.Succs {
+					from = append(from, cfgx.StartAfter(e, 0))
+				}
+				contribBefore := false
+				if _, skip := g.Reach([]*cfgx.Visit{cfgx.StartAfter(body, 0)}, func(m *cfgx.Node) bool { return m == s.n })[st]; !skip {
+					contribBefore = true
+				}
+				if !contribBefore {
+					if _, leak := g.Reach(from, func(m *cfgx.Node) bool { return m == s.n })[head]; leak {
+						bad = "a transaction can be stored without its weight being counted"
+					}
+				}
+			}
+			ob.Check(bad == "", nil, "pool weight and pool contents diverge at %s: %s (the weight drives eviction: an over-counted pool evicts accepted transactions, an under-counted one grows past its limit)", c.P.Pos(s.n.Pos()), bad)
+		}
+	}
+	if n == 0 {
+		ir.Fail("no contribution to the pool's weight found")
+	}
 }
